@@ -1598,10 +1598,11 @@ class Lower:
                 return '(%s %s %s)' % (a, op, b)
             if op in ('.*', '->*'):
                 raise Unsupported('pointer to member')
-            if op == '*' and self.uf_mul:
+            if op in ('*', '/', '%') and self.uf_mul:
                 ct = self.ctype(dq(n['type']))
-                if ct in ('unsigned int', 'unsigned long'):
-                    return 'XV_UMUL%d(%s, %s)' % (32 if ct == 'unsigned int' else 64, self.rv(l), self.rv(r))
+                if ct in ('unsigned int', 'unsigned long') and (op == '*' or self.uf_mul == 'muldiv'):
+                    nm = {'*': 'MUL', '/': 'DIV', '%': 'MOD'}[op]
+                    return 'XV_U%s%d(%s, %s)' % (nm, 32 if ct == 'unsigned int' else 64, self.rv(l), self.rv(r))
             return '(%s %s %s)' % (self.rv(l), op, self.rv(r))
         if k == 'CompoundAssignOperator':
             l, r = n['inner']
